@@ -14,7 +14,7 @@ RULE = ("states = canonical (totals dict, Counter hidden state incl. scalar-vs-a
         "across moduli, batch orders and batch splits; non-trivial = the batch contains a key and a non-key sharing a bucket, or repeats")
 ASSUMPTIONS = ["reference model: dict of totals = initial value + occurrences", "samples lie inside the key dtype's range (others are outside the statement)"]
 REQUIRED_FEATURES = ["empty_batch", "only_non_keys", "non_key_colliding", "non_key_empty_bucket", "all_keys_collide", "scalar_nonzero_init",
-                     "array_init", "large_key", "cross_history_comparisons", "depth2", "huge_batch", "ndarray_batch"]
+                     "array_init", "large_key", "cross_history_comparisons", "depth2", "huge_batch", "ndarray_batch", "exhaustive_small_batches"]
 BOUNDS = {"quick": "10 key sets (1-5 keys, and 10 / 17 keys) x moduli {default,1,2,3,4,64} x initial {default, 0, 4, per-key array} (+ int8/uint8/uint64/python-list keys, int32 counts on 4 sets); "
                    "all count histories of depth <= 2 over ~32 batches and depth 3 with the third batch from the 12 simplest (empty, every single universe element, ordered pairs over keys / colliding and "
                    "free non-keys, heavy repetition, only non-keys, large keys)",
@@ -33,7 +33,17 @@ def shards(tier):
     ks = KEYSETS_Q if tier == "quick" else KEYSETS_T
     out = [{"keys": k, "kdt": "int64", "init": i, "depth": 3} for k in ks for i in INITS]
     out += [{"keys": k, "kdt": d, "init": i, "depth": 2} for (k, d) in TYPED for i in ("default", "array")]
+    # EVERY batch of up to 4 samples (5 in the thorough tier) over a 9-symbol universe, for tables whose buckets hold 3, 2, 1 (and 0) keys:
+    # all relations between the sizes of the visited buckets, the number of samples and their order
+    for ex in EXH:
+        for part in range(4):
+            out.append({"exh": ex, "part": part, "of": 4, "maxlen": 4 if tier == "quick" else 5})
     return out
+
+
+EXH = [{"keys": [0, 4, 8, 1, 5, 2], "mod": 4, "extra": [3, 12, 9]},        # buckets {0,4,8} {1,5} {2} {}; non-keys: empty bucket / colliding
+       {"keys": [7, 0, 14, 1, 8, 2, 3], "mod": 7, "extra": [21, 4, 15]},    # buckets {7,0,14} {1,8} {2} {3} and three empty ones
+       {"keys": [6, 1, 3, 4, 2], "mod": None, "extra": [10, 0, 15]}]        # default modulus 9: {1} {2} {3} {4} {6}, colliding 10, 15, free 0
 
 
 def _fits(k, kdt):
@@ -172,7 +182,26 @@ def read_back(c, keys, kdt):
     return (v, singles)
 
 
+def _run_exhaustive(shard, tier, acc):
+    ex = shard["exh"]
+    keys, mod = ex["keys"], ex["mod"]
+    uni = list(keys) + list(ex["extra"])
+    cfg = [keys, mod, "int64", "default"]
+    acc.feature("exhaustive_small_batches")
+    cross = {}
+    i = 0
+    for L in range(1, shard["maxlen"] + 1):
+        for b in itertools.product(uni, repeat=L):
+            i += 1
+            if i % shard["of"] != shard["part"]:
+                continue
+            acc.begin(["hist", cfg, [list(b)]])
+            _step(acc, cfg, [list(b)], set(), cross)
+
+
 def run_shard(shard, tier, acc):
+    if "exh" in shard:
+        return _run_exhaustive(shard, tier, acc)
     keys, kdt, init, depth = shard["keys"], shard["kdt"], shard["init"], shard["depth"]
     cross = {}       # sample multiset -> totals first observed (any modulus, order, split)
     for mod in MODS:
